@@ -10,9 +10,12 @@
 #include <morfuse/Common/SafePtr.h>
 #include <morfuse/Common/membuf.h>
 #include <morfuse/Common/str.h>
+#include <morfuse/Common/MEM/Memory.h>
 #include "lineio.h"
 
 #include <cstring>
+#include <cxxabi.h>
+#include <typeinfo>
 #include <cstdint>
 #include <deque>
 #include <map>
@@ -26,6 +29,15 @@ using namespace mfuse;
 namespace {
 
 typedef std::vector<unsigned char> Bytes;
+
+// "malloc fails" is made deterministic: a request of 2^20 bytes or more is refused (null), exactly the
+// model's `allocLimit`.  Everything the reader allocates on the say-so of a length / count / index field
+// of the archive (str::resize, Container::Resize) goes through this interface.
+class LimitedMemory : public IMemoryManager {
+public:
+    void* allocate(size_t size) override { return size >= (size_t(1) << 20) ? nullptr : std::malloc(size); }
+    void free(void* ptr) noexcept override { std::free(ptr); }
+};
 
 enum Kind { KPrim, KRaw, KStr, KPtr, KSafe, KPos, KObj };
 enum PrimT { I8, I16, I32, I64, U8, U16, U32, U64, CHR, SIZE, BYTE, F32, F64, BOOL, POS, PRIM_BAD };
@@ -356,17 +368,17 @@ std::string readBack(const unsigned char* data, size_t len, bool shortForm)
             Archiver arc = Archiver::CreateRead(in, info);
             run.exec(arc, cur.items, out);
         }
-        catch (const ArchiveErrors::InvalidArchiveHeader&) { err = "InvalidArchiveHeader"; }
-        catch (const ArchiveErrors::WrongVersion&) { err = "WrongVersion"; }
-        catch (const ArchiveErrors::TypeError&) { err = "TypeError"; }
-        catch (const ArchiveErrors::InvalidClass&) { err = "InvalidClass"; }
-        catch (const ArchiveErrors::ObjectClassError&) { err = "ObjectClassError"; }
-        catch (const ArchiveErrors::ReadPastEndObject&) { err = "ReadPastEndObject"; }
-        catch (const ArchiveErrors::NotReadEntireDataObject&) { err = "NotReadEntireDataObject"; }
-        catch (const ArchiveErrors::ReadStreamFail&) { err = "ReadStreamFail"; }
-        catch (const ArchiveErrors::MissingReadStream&) { err = "MissingReadStream"; }
-        catch (const ArchiveErrors::ObjectInstanceFailed&) { err = "ObjectInstanceFailed"; }
-        catch (const ArchiveErrors::Base&) { err = "ArchiveError:other"; }
+        catch (const ArchiveErrors::Base& e) {
+            // the class name of the exception, whatever classes this tree has
+            int st = 0;
+            char* dn = abi::__cxa_demangle(typeid(e).name(), nullptr, nullptr, &st);
+            static std::string keep;
+            keep = dn ? dn : "ArchiveError:unknown";
+            std::free(dn);
+            const size_t c = keep.rfind("::");
+            if (c != std::string::npos) keep = keep.substr(c + 2);
+            err = keep.c_str();
+        }
         catch (const std::bad_alloc&) { err = "std::bad_alloc"; }
         catch (const std::exception&) { err = "std::exception"; }
         catch (...) { err = "unknown-exception"; }
@@ -419,9 +431,12 @@ MFUS_CLASS_DECLARATION(VNode, VNodf, nullptr)
 
 int main(int argc, char** argv)
 {
+    static LimitedMemory limited;
+    IMemoryManager::set(&limited);
     ScriptContext context;
     EventContext::Set(&context);
 
+    static_assert(sizeof(strdata<char>) == 24, "the model's strOverhead");
     if (argc > 1 && std::string(argv[1]) == "--classes") {
         std::string s;
         for (auto& b : registry()) { if (!s.empty()) s += ' '; s += hexOf(b); }
@@ -455,7 +470,8 @@ int main(int argc, char** argv)
             c.have = true;
             cur = c;
             const size_t cap = 1u << 23;
-            std::unique_ptr<char[]> buf(new char[cap]);
+            static char wbuf[1u << 23];     // static: operator new goes through the limited memory manager
+            struct { char* get() { return wbuf; } } buf;
             size_t len = 0;
             std::string werr;
             {
